@@ -4,6 +4,7 @@ import (
 	"bytes"
 	"fmt"
 	"net/url"
+	"os"
 	"regexp"
 )
 
@@ -69,7 +70,7 @@ type escCase struct {
 }
 
 func runC09(o *Options) *Result {
-	return runEscaperProperty(o, "C09", c09Forms, oracleC09, escPlan{
+	res := runEscaperProperty(o, "C09", c09Forms, oracleC09, escPlan{
 		Singles: true, Pairs: true, PairForms: []string{"u", "l"},
 		RandomQuick: 3000, RandomThorough: 300000, MaxLen: 48, ByteLevel: true,
 		CorrName: "correspondence url_encode/link_escape (Model/EscURL.v) vs mod_uri.go",
@@ -87,6 +88,14 @@ func runC09(o *Options) *Result {
 			return b
 		},
 	})
+	if res.InfraError != "" {
+		return res
+	}
+	// everything rendered inside a urlencode region: interpreter-level correspondence and reference semantics
+	sub := *o
+	sub.WorkDir = o.WorkDir + "/region"
+	_ = os.MkdirAll(sub.WorkDir, 0o755)
+	return mergeResults(res, runInterp(&sub, "C09", regionProfile("urlencode"), 200, 4000, corrInterp))
 }
 
 // escPlan describes the input streams of an escaper property.
